@@ -106,7 +106,10 @@ class FileAnonymizer:
                 "Cannot write output file; "
                 "output file is a directory ({})".format(out_file)
             )
-        with open(in_file, "r") as in_io, open(out_file, "w") as out_io:
+        # newline="": keep every line terminator (\r\n, \r) exactly as in the input
+        with open(in_file, "r", newline="") as in_io, open(
+            out_file, "w", newline=""
+        ) as out_io:
             self.anonymize_io(in_io, out_io)
 
     def anonymize_io(self, in_io, out_io):
@@ -218,7 +221,9 @@ def anonymize_files(
                     "Cannot write output file; "
                     "output file is a directory ({})".format(out_path)
                 )
-            with open(in_path, "r") as f_in, open(out_path, "w") as f_out:
+            with open(in_path, "r", newline="") as f_in, open(
+                out_path, "w", newline=""
+            ) as f_out:
                 file_anonymizer.anonymize_io(f_in, f_out)
         except Exception:
             logging.error("Failed to anonymize file %s", in_path, exc_info=True)
